@@ -45,6 +45,11 @@ CHECKS = {
    design="5/C13", technique="TLC invariant CheckRer + trace validation of rer / rer_nrb / rer_onst"),
  "C14": dict(text="Session histories Evaluate ; AddPv(delta) ; Evaluate: TLC enumerates buildings x increments (MC_C14, regulatory sets), checks monotonicity exactly on the specification and the pairs are replayed on the real library and judged by TLC (Trace_C14)." + BOTH,
    design="5/C14", technique="TLA+ history spec (AddPv) + TLC invariant CheckMono + trace validation of pairs"),
+ "C16": dict(category="fault_enumeration",
+   text="Model-driven fault enumeration: spec/Faults.tla defines the token-level corruption actions and TLC enumerates every fault (quick) / every fault pair (thorough) from components and factor files over an alphabet of atoms, plus token soups; each text is run through every public library entry point (catch_unwind) and through the real program, with valid texts of every kind and option atoms; the oracle is the terminal-state set of the specification (Trace_C16): Ok / typed error, deliberate exit code with stderr - Panic, signal, timeout are not states. This is the right level because the property is the absence of a bad terminal state over a generated input space, not a functional relation.",
+   design="5/C16", technique="TLA+ fault actions + TLC enumeration of fault sequences + terminal-state trace oracle"),
+ "C19": dict(text="spec/Cli.tla is a finite model of option / metadata / default resolution and exit codes; TLC enumerates its configuration space (complete product in the thorough tier) and every configuration is executed by the real binary; TLC judges exit code, origin lines, effective values in --json, write-back in --oc and the per-m2 ratio against Cli!Allowed (set-valued where the statement is silent).",
+   design="5/C19", technique="finite TLA+ model of the CLI + TLC enumeration of configurations + trace validation of real executions"),
 }
 
 def main():
